@@ -1720,3 +1720,14 @@ TABLE["C07"] += [
     N("namespace-walk-with-explicit-break", (IP + "utils.py", "        namespaces = [ancestor.name] + namespaces\n        ancestor = ancestor.parent",
                                             "        namespaces = [ancestor.name] + namespaces\n        if not ancestor.parent:\n            break\n        ancestor = ancestor.parent")),
 ]
+TIN = "gtwrap/template_instantiator/namespace.py"
+TABLE["C08"] += [
+    B("typedef-of-a-listed-combination-dropped", {"N11"},
+      (TIN, "            original_element = typedef_targets[id(typedef_inst)]\n",
+       "            original_element = typedef_targets[id(typedef_inst)]\n            tmpl = getattr(original_element, 'template', None)\n"
+       "            if tmpl and any(list(c) == list(typedef_inst.typename.instantiations) for c in itertools.product(*tmpl.instantiations)):\n                continue\n")),
+    B("typedef-of-a-function-template-dropped", {"N11", "N2"},
+      (TIN, "            elif isinstance(original_element, parser.GlobalFunction):\n                typedef_content.append(", "            elif isinstance(original_element, parser.GlobalFunction) and False:\n                typedef_content.append(")),
+    B("sub-namespace-walk-late-bound", {"N2"},
+      (IP + "namespace.py", "    found_namespaces = [\n        ns for ns in sub_namespaces if ns.name == str_namespaces[0]\n    ]", "    found_namespaces = [\n        ns for ns in sub_namespaces if ns.name == str_namespaces[-1]\n    ]")),
+]
